@@ -5,6 +5,7 @@ Settings are written as code strings ('31', '38;5;214'); they are handed to the 
 objects so that Engine A does not depend on the name/int spellings (those are C14's business).  A
 code starting with '[' is handed over as that string (verbatim setting via the documented '[' form).
 """
+import os
 from .env import AnsiString, AnsiStr, AnsiSetting, HarnessError
 
 
@@ -140,6 +141,18 @@ def apply_op(v, op):
         v.isalpha()
         v.lower()
         v.strip()
+        # calls that are mutators by name but must change nothing here: they may fill or consult remembered answers too
+        n_ = len(v)
+        v.remove_formatting(AnsiSetting('95'), 0, n_)
+        v.apply_formatting([], 0, n_)
+        v.format_matching('\x00\x00q', AnsiSetting('95'))
+        v.unformat_matching('\x00\x00q', AnsiSetting('95'))
+        v.replace('\x00\x00q', 'x', inplace=True)
+        v.clip(inplace=True)
+        v.strip('\x00', inplace=True)
+        v.removeprefix('\x00\x00q', inplace=True)
+        v.ljust(n_, inplace=True)
+        v.center(n_, inplace=True)
         return v
     if k == 'reparse':
         return AnsiString(str(v))
@@ -168,10 +181,23 @@ def apply_op(v, op):
     raise HarnessError('unknown op %r' % (op,))
 
 
-def build(history):
+READS = os.environ.get('VERIF_READS', '0') == '1'
+
+
+def build(history, reads=None):
+    """Replays a history on fresh objects.  With reads (default: the module flag READS, set by VERIF_READS=1) a full round
+    of queries (the 'read' operation) follows every step, so that whatever an implementation remembers from a query is in
+    place when the next step and the probes run; queries are transparent on a correct implementation (C09 checks that
+    separately, always without this flag)."""
+    if reads is None:
+        reads = READS
     v = seed_value(history[0])
+    if reads and isinstance(v, AnsiString):
+        apply_op(v, ['read'])
     for op in history[1:]:
         v = apply_op(v, op)
+        if reads and isinstance(v, AnsiString) and op[0] != 'read':
+            apply_op(v, ['read'])
     return v
 
 
